@@ -6,6 +6,14 @@
 // tables).  Whether the initiator may finish, and with what, is the row's
 // verdict; this driver only builds the bytes and compares.
 //
+// "Proposed" is what the ProposeVersions segment read off the wire holds.  The
+// rows in which the initiator sent its whole table are executed; after each
+// run the real proposal is mapped back into the window and the run is judged
+// by the row of the specification with that sent set (the rows with a proper
+// subset are reached only by code that does not send its whole table).
+// Whether the proposal must be the configured table is C18's subject: a
+// difference is recorded, not judged.
+//
 //	c19 rows.ndjson...            replay the rows of the given files
 //	c19 -replay replay.json       re-run one recorded case
 package main
@@ -36,6 +44,8 @@ type job struct {
 	File    string  `json:"file"`
 	Binding string  `json:"binding"` // "hs" | "conn"
 	Table   string  `json:"table"`
+	// the runs of the specification with the same configuration and reply, by sent set (hs.SentKey)
+	BySent map[string]*hs.Row `json:"rows_by_sent,omitempty"`
 }
 
 type concrete struct {
@@ -43,7 +53,7 @@ type concrete struct {
 	Versions map[string]uint16 `json:"versions"`
 	Magics   [3]uint32         `json:"magics"`
 	Flags    [2]bool           `json:"flags"` // initiator's diffusion, peer sharing
-	Proposed []uint16          `json:"proposed"`
+	Proposed []uint16          `json:"proposed"` // the configured table
 	ReplyHex string            `json:"reply_hex"`
 }
 
@@ -51,6 +61,8 @@ type replay struct {
 	Job      job      `json:"job"`
 	Concrete concrete `json:"concrete"`
 	Seed     int64    `json:"verif_seed"`
+	Wire     []uint16 `json:"wire_proposal"` // the versions in the ProposeVersions segment the initiator really sent
+	Sent     string   `json:"sent_abstract"` // ... mapped back into the window: the row with this sent set judges
 	Observed string   `json:"initiator_observed"`
 	Expected string   `json:"expected"`
 }
@@ -60,6 +72,8 @@ var (
 	tables  map[string]*hs.Table
 	unknown []uint16
 	seed    int64
+	// index of all rows: configuration + reply -> sent set -> row
+	bySent = map[string]map[string]*hs.Row{}
 
 	limit  = hs.NewLimiter(25)
 	statMu sync.Mutex
@@ -119,6 +133,42 @@ type scenario struct {
 	conn     hs.ConnOpts
 	repr     map[int]uint16
 	item     string // which junk / bad item stands for the data
+	cfgMagic map[uint16]uint32 // the configured table: version -> magic
+}
+
+func indexKey(r *hs.Row) string { return r.ConfigKey() + "|" + r.ReplyKey() }
+
+// sentOf maps the proposal read off the wire back into the window: the
+// abstract versions of the configured table whose concrete version was sent.
+// It also says how the proposal differs from the configured table.
+func (sc *scenario) sentOf(r *hs.Row, p *hs.Proposal) (sent []int, missing, extra, otherMagic []uint16) {
+	for _, a := range hs.Dom(r.Cli) {
+		if p.Has(sc.repr[a]) {
+			sent = append(sent, a)
+		}
+	}
+	for _, v := range sc.c.Proposed {
+		if !p.Has(v) {
+			missing = append(missing, v)
+		} else if m, ok := p.Magic(v); !ok || m != sc.cfgMagic[v] {
+			otherMagic = append(otherMagic, v)
+		}
+	}
+	for _, v := range p.Versions {
+		if _, ok := sc.cfgMagic[v]; !ok {
+			extra = append(extra, v)
+		}
+	}
+	return
+}
+
+func has(vs []uint16, v uint16) bool {
+	for _, x := range vs {
+		if x == v {
+			return true
+		}
+	}
+	return false
 }
 
 func expectedString(r *hs.Row) string {
@@ -259,7 +309,9 @@ func scenarioHs(j *job) *scenario {
 		sc.c.Versions[fmt.Sprint(a)] = v
 	}
 	sc.cm = protocol.ProtocolVersionMap{}
+	sc.cfgMagic = map[uint16]uint32{}
 	for _, a := range hs.Dom(r.Cli) {
+		sc.cfgMagic[vm[a]] = sc.c.Magics[r.Cli[a-1]]
 		sc.cm[vm[a]] = t.Entry(vm[a], sc.c.Magics[r.Cli[a-1]], sc.c.Flags[0], sc.c.Flags[1], r.Qf)
 		if sc.cm[vm[a]] == nil {
 			rep.Dead("library generated no data for %s version %d", t.Name, vm[a])
@@ -341,6 +393,10 @@ func scenarioConn(j *job) *scenario {
 	}
 	sc.conn = hs.ConnOpts{Magic: sc.c.Magics[r.Cli[dom[0]-1]], NtN: t.Name == "ntn", DMQ: t.Name == "dmqntc",
 		FullDuplex: !sc.c.Flags[0], PeerSharing: sc.c.Flags[1], Query: r.Qf}
+	sc.cfgMagic = map[uint16]uint32{}
+	for _, v := range t.Versions {
+		sc.cfgMagic[v] = sc.conn.Magic
+	}
 	if !buildReply(j, sc, func(a int) (uint16, bool) { v, ok := repr[a]; return v, ok }) {
 		return nil
 	}
@@ -379,8 +435,13 @@ func run(j *job) (dead string) {
 	if sc == nil {
 		return ""
 	}
+	alts := j.BySent
+	if alts == nil {
+		alts = bySent[indexKey(r)]
+	}
 	key := fmt.Sprintf("%s:%s:%s:%s%s", j.Binding, j.Table, r.CaseKey(), r.ReplyKey(), sc.item)
 	rp := &replay{Job: *j, Concrete: *sc.c, Seed: seed, Expected: expectedString(r)}
+	rp.Job.BySent = alts
 	var co hs.Outcome
 	var proposal *hs.Proposal
 	var respErr error
@@ -406,16 +467,47 @@ func run(j *job) (dead string) {
 	if co.Kind == "hang" {
 		return "the reply was written but the initiator did not react: " + co.Err
 	}
-	if !sameVersions(proposal.Versions, sc.c.Proposed) {
-		rep.Dead("%s: the initiator was configured with versions %v but proposed %v", key, sc.c.Proposed, proposal.Versions)
+	// what was proposed is what is on the wire: the row with that sent set judges
+	sent, missing, extra, otherMagic := sc.sentOf(r, proposal)
+	rp.Wire, rp.Sent, rp.Observed = proposal.Versions, hs.SentKey(sent), co.String()
+	if len(missing)+len(extra)+len(otherMagic) == 0 {
+		stat("proposal:is the configured table")
+	} else {
+		// whether the proposal must be the configured table is C18's subject
+		what := "proposal:differs from the configured table (C18's subject, not judged here)"
+		stat(what)
+		note(what, fmt.Sprintf("%s: configured %v, on the wire %v (not sent %v, not configured %v, another magic than configured %v)",
+			key, sc.c.Proposed, proposal.Versions, missing, extra, otherMagic))
 	}
-	rp.Observed = co.String()
-	nontrivial := r.Reply.T == "accept"
+	jr := r
+	if hs.SentKey(sent) != hs.SentKey(hs.Dom(r.Cli)) {
+		jr = alts[hs.SentKey(sent)]
+		if jr == nil {
+			what := "unjudged:the initiator sent a part of its table for which this tier's specification runs hold no row"
+			stat(what)
+			note(what, fmt.Sprintf("%s: sent %s", key, hs.SentKey(sent)))
+			return ""
+		}
+		key = fmt.Sprintf("%s:%s:%s:%s%s", j.Binding, j.Table, jr.CaseKey(), jr.ReplyKey(), sc.item)
+		rp.Expected = expectedString(jr)
+		stat("judged by a row with a proper part of the table sent")
+	}
+	if r.Reply.T == "accept" && proposal.Has(sc.wantVer) {
+		// the statement does not say which of the two is "proposed" / "its own magic" when the initiator
+		// sends something it was not configured with: such an acceptance is not judged
+		if has(extra, sc.wantVer) || has(otherMagic, sc.wantVer) {
+			what := "unjudged:accept of a version the initiator proposed without being configured with it, or with another magic than configured"
+			stat(what)
+			note(what, key+": "+co.String())
+			return ""
+		}
+	}
+	nontrivial := jr.Reply.T == "accept"
 	rep.Case(key, nontrivial)
-	stat(j.Binding + ":" + j.Table + ":" + r.Reply.T + ":" + r.Cres.Kind)
-	why := append([]string(nil), r.Why...)
+	stat(j.Binding + ":" + j.Table + ":" + jr.Reply.T + ":" + jr.Cres.Kind)
+	why := append([]string(nil), jr.Why...)
 	sort.Strings(why)
-	switch r.Cres.Kind {
+	switch jr.Cres.Kind {
 	case "ok":
 		switch {
 		case co.Kind != "ok":
@@ -429,15 +521,15 @@ func run(j *job) (dead string) {
 	case "error":
 		if co.Kind == "ok" {
 			disagree(j, "accepted:"+strings.Join(why, "+"), key+sc.itemClass(),
-				fmt.Sprintf("the initiator proposed %v (magic as configured) and finished the handshake with version %d, %s, on an accept that must fail (%s)",
-					sc.c.Proposed, co.Version, hs.DataString(co.Data), strings.Join(why, ", ")), rp)
+				fmt.Sprintf("the initiator proposed %v (configured with %v, magic as configured) and finished the handshake with version %d, %s, on an accept that must fail (%s)",
+					proposal.Versions, sc.c.Proposed, co.Version, hs.DataString(co.Data), strings.Join(why, ", ")), rp)
 		} else if co.Kind == "query" {
 			disagree(j, "accept-became-query", key, "an accept was reported as a query reply: "+co.String(), rp)
 		}
 	case "mismatch", "refused", "decodeerror":
 		if co.Kind == "ok" {
 			disagree(j, "selected-on-refusal", key, fmt.Sprintf("a refusal made the initiator finish with version %d", co.Version), rp)
-		} else if co.Kind != r.Cres.Kind ||
+		} else if co.Kind != jr.Cres.Kind ||
 			(co.Kind == "mismatch" && !sameVersions(co.Versions, sc.refVs) && len(co.Versions)+len(sc.refVs) > 0) ||
 			(co.Kind != "mismatch" && co.Version != sc.refVer) {
 			// how a refusal is reported is C18's subject; here it only must not select
@@ -455,9 +547,9 @@ func run(j *job) (dead string) {
 			}
 		}
 	default:
-		rep.Dead("row with expected kind %q", r.Cres.Kind)
+		rep.Dead("row with expected kind %q", jr.Cres.Kind)
 	}
-	rep.Sample(fmt.Sprintf("%s: proposed %v, reply %s -> %s", key, sc.c.Proposed, sc.c.ReplyHex, co))
+	rep.Sample(fmt.Sprintf("%s: proposed %v, reply %s -> %s", key, proposal.Versions, sc.c.ReplyHex, co))
 	return ""
 }
 
@@ -478,6 +570,7 @@ func main() {
 	}
 	args := os.Args[1:]
 	var jobs []*job
+	sentRows := 0
 	if len(args) == 2 && args[0] == "-replay" {
 		b, err := os.ReadFile(args[1])
 		if err != nil {
@@ -505,6 +598,16 @@ func main() {
 				r := &rows[i]
 				if r.Mode != "adversary" {
 					rep.Dead("%s row %d is not an adversarial-responder run", f, i)
+				}
+				ik := indexKey(r)
+				if bySent[ik] == nil {
+					bySent[ik] = map[string]*hs.Row{}
+				}
+				bySent[ik][hs.SentKey(r.Sent())] = r
+				if !r.SentAll() {
+					// reached only if the initiator really sends that part of its table: looked up after a run
+					sentRows++
+					continue
 				}
 				cardano := []string{"ntn", "ntc"}
 				if !thorough {
@@ -562,6 +665,7 @@ func main() {
 	}
 	rep.Extra["runs_by_binding_table_reply_expected"] = stats
 	rep.Extra["retried_after_deadline"] = len(retry)
+	rep.Extra["specification_rows_with_a_proper_part_of_the_table_sent"] = sentRows
 	if len(limit.Counts) > 0 {
 		rep.Extra["disagreements_by_class_binding_table"] = limit.Counts
 		rep.Extra["disagreements_reported_per_class_at_most"] = limit.Max
